@@ -10,6 +10,7 @@ resources, src and chunk parameters erased and all tables sorted.
 The fact `Gen.c15SelfCompare` is regenerated from the source on every run.
 -/
 import Martian.Equiv
+import Martian.EquivMeaning
 import Proofs.Equiv
 import Proofs.EquivLockLTS
 import Gen.Facts
@@ -39,6 +40,57 @@ theorem equiv_iff_sem_eq (a b : Prog) (ha : a.wf = true) (hb : b.wf = true) :
       semCall (Prog.fuel a b) a.tab a.call = semCall (Prog.fuel a b) b.tab b.call := by
   simp only [Prog.wf, Bool.and_eq_true] at ha hb
   exact equivCall_iff_sem_eq _ _ _ _ _ ha.1.1 hb.1.1 ha.1.2 hb.1.2 ha.2 hb.2
+
+/-- THE statement at the level of the full meaning (`Martian.Equiv.meaning`: the
+call graph unfolded from the top-level call with all callable bodies, parameter
+types, modifiers, bindings, plus every aspect listed in `Ignored`):
+re-attach is accepted iff the COMPARED part of the meaning is unchanged.
+What `Ast.EquivalentCall` ignores, exactly as the Go code does, is the `ignored`
+component — constructor by constructor `Ignored.calleeName`, `.volatile`,
+`.stageSrc`, `.resources`, `.retain`, `.chunkParams`, `.fileTypeName` (scalar
+file kinds only), `.outName` (stage outputs, non-file pipeline outputs), `.help`,
+`.structDef` — and what is not meaning at all (comments, whitespace, every
+ordering, include structure, unreachable callables and types).  Each ignored
+aspect has its own edit class in the correspondence harness, which checks that
+the real code accepts it AND that the model sees exactly that aspect change. -/
+theorem equiv_iff_compared_meaning_eq (a b : FullProg) (ha : a.core.wf = true) (hb : b.core.wf = true) :
+    equivalentCall Gen.c15SelfCompare a.core b.core = true ↔
+      (meaning (Prog.fuel a.core b.core) a).compared = (meaning (Prog.fuel a.core b.core) b).compared :=
+  equiv_iff_sem_eq a.core b.core ha hb
+
+/-- Nothing in `Extra` (src, resources, retain, chunk parameters, help) and no
+struct definition can change the verdict: the comparison never reads them. -/
+theorem ignored_components_do_not_matter (a a' b : FullProg) (h : a.core = a'.core) :
+    equivalentCall Gen.c15SelfCompare a.core b.core = equivalentCall Gen.c15SelfCompare a'.core b.core ∧
+    equivalentCall Gen.c15SelfCompare b.core a.core = equivalentCall Gen.c15SelfCompare b.core a'.core := by
+  rw [h]; exact ⟨rfl, rfl⟩
+
+/-- `volatile` is ignored by `Modifiers.EquivalentTo` (both sides). -/
+theorem volatile_is_ignored (sc : Bool) (m o : Mods) (v : Bool) :
+    Mods.equiv sc { m with volatile := v } o = Mods.equiv sc m o ∧
+    Mods.equiv sc m { o with volatile := v } = Mods.equiv sc m o := by
+  simp [Mods.equiv]
+
+/-- the type NAME of a parameter of scalar file kind is ignored -/
+theorem scalar_file_type_name_is_ignored (x y : Param) (t : Key) (hx : x.fileKind = 2) :
+    inParamEq { x with tname := t } y = inParamEq x y ∧
+    inParamEq y { x with tname := t } = inParamEq y x := by
+  constructor
+  · simp [inParamEq, hx]
+  · simp only [inParamEq]
+    by_cases hy : y.fileKind = 2
+    · simp [hy]
+    · have : (y.fileKind == x.fileKind) = false := by simpa [hx] using hy
+      simp [this]
+
+/-- the output file name of a STAGE output is ignored (`checkOutNames = false`) -/
+theorem stage_out_name_is_ignored (x y : Param) (n : Key) :
+    outParamEq false { x with outName := n } y = outParamEq false x y := by
+  simp [outParamEq, inParamEq]
+
+/-- …but not that of a pipeline output of file or directory kind -/
+example : outParamEq true { tname := [116], arrayDim := 0, mapDim := 0, fileKind := 2, outName := [] }
+    { tname := [116], arrayDim := 0, mapDim := 0, fileKind := 2, outName := [1] } = false := by decide
 
 theorem equiv_refl (n : Nat) (T : Tab) (c : Call) (hT : T.wf = true) (hc : c.wf = true)
     (hcc : c.completeIn T = true) :
